@@ -323,6 +323,11 @@ func (s *vfSim) runMonitors(mc vfMonCfg) *vfMonOut {
 				switch c.Type {
 				case vfCtInit, vfCtInitAck:
 					sh.initTSN, sh.haveInit = c.InitTSN, true
+					// the window the peer may use before the first SACK is the one advertised here
+					if o := out.sh[1-side]; o.nARwnd == 0 {
+						o.lastARwnd[0] = c.ARwnd
+						o.nARwnd = 1
+					}
 					ext := vfInitExtensions(c)
 					sh.advertZC = ext.ZeroCsum
 					sh.advertIL = ext.IData
